@@ -478,7 +478,7 @@ def drive_with(case, work):
     finally:
         if started:
             with_trace.__exit__(None, None, None)
-            out["exit_calls"] = [[c["fn"], c["mode"], c["file"], c["line"], c["handle"], c["out"], c["repack"]] for c in with_trace.calls if c["ws"] == id(ws)]
+            out["exit_calls"] = [[c["fn"], c["mode"], c["file"], c["line"], c["handle"], c["out"], c["repack"], c["in_close"]] for c in with_trace.calls if c["ws"] == id(ws)]
             out["exit_entries"] = [[e["fn"], e["hmode"], e["out"]] for e in with_trace.entries
                                    if os.path.realpath(e["hfile"]) == os.path.realpath(path)]
         else:
